@@ -340,6 +340,21 @@ def transition(
         Tuple[PureSnapshot, List[ActionDefinition]]: The resulting snapshot
         and the actions that would have run.
     """
+    # 🏁 A machine that has completed (or failed) ignores further events, as
+    #    both interpreters do. Forcing the probe back to "running" made the
+    #    pure API keep transitioning and report `status == "active"` again.
+    if snapshot.status != "active":
+        return (
+            PureSnapshot(
+                state_ids=set(snapshot.state_ids),
+                configuration=set(snapshot.configuration),
+                context=copy.deepcopy(snapshot.context),
+                status=snapshot.status,
+                output=snapshot.output,
+            ),
+            [],
+        )
+
     probe, recorded = _build_probe(machine, snapshot, None)
     probe.status = "running"
 
